@@ -588,6 +588,13 @@ func (em *emitter) emitAssignmentNode(node *ast.Assignment) {
 			}
 			typ := em.typ(v.Expr)
 			reg := em.emitExpr(v.Expr, typ)
+			if reg < 0 {
+				// The operand is an indirect variable: load the pointer it
+				// holds.
+				r := em.fb.newRegister(reflect.Pointer)
+				em.changeRegister(false, reg, r, typ, typ)
+				reg = r
+			}
 			addresses[i] = em.addressPtrIndirect(reg, typ, pos, node.Type)
 		default:
 			panic(internalError("unexpected"))
